@@ -14,7 +14,7 @@ fn configs() -> &'static Vec<Config> {
 
 pub const POPS13: [Pop; 3] = [Pop::Val(3), Pop::NotFound, Pop::Other];
 pub const POPS14: [Pop; 4] = [Pop::Val(1), Pop::Val(2), Pop::NotFound, Pop::Other];
-pub const CHK14: [CheckerKind; 3] = [CheckerKind::None, CheckerKind::Recording, CheckerKind::Panicking];
+pub const CHK14: [CheckerKind; 4] = [CheckerKind::None, CheckerKind::Recording, CheckerKind::Panicking, CheckerKind::Lenient];
 
 pub fn n13() -> u64 {
     (configs().len() * OPS13.len() * POPS13.len()) as u64
@@ -56,7 +56,7 @@ impl Check for C13 {
         "C13"
     }
     fn rule(&self) -> String {
-        format!("the full matrix of {} points = write side {{none, plain, sharded}} x 0-2 read-only levels each plain/sharded x each level holding {{nothing, A, B}} x operation {{get, touch, ensure, get_or_update x {{Accept, Promote, Replace}}, set, put, set_temp_file, put_temp_file}} x populate outcome {{value C, NotFound, Other error}}, each point run on a fresh simulated filesystem (quick: 100 times; thorough: 5000 times) with swarm dimensions auto_sync, value sizes, atime policy, granularity, umask, judge read length and reader noise by a second process; judged against a reference model of the stack (returned bytes, judge argument, populate's old argument, before/after snapshots of every level); one run in 200 is a concurrent run (stacked cache, read-only level pre-populated, peers putting/setting the same keys) in which every Replace must return exactly the value it populated and no insert-if-absent operation (put, ensure, Accept, Promote) may replace an entry that exists when it publishes. Every point is non-trivial; distinct = matrix point", n13())
+        format!("the full matrix of {} points = write side {{none, plain, sharded}} x 0-2 read-only levels each plain/sharded x each level holding {{nothing, A, B}} x operation {{get, touch, ensure, get_or_update x {{Accept, Promote, Replace}}, set, put, set_temp_file, put_temp_file}} x populate outcome {{value C, NotFound, Other error}}, each point run on a fresh simulated filesystem (quick: 100 times; thorough: 5000 times) with swarm dimensions auto_sync, value sizes, atime policy, granularity, umask, judge read length, reader noise by a second process and (a quarter of the runs) a lenient checker that accepts differing copies; judged against a reference model of the stack (returned bytes, judge argument, populate's old argument, before/after snapshots of every level); one run in 200 is a concurrent run (stacked cache, read-only level pre-populated, peers putting/setting the same keys) in which every Replace must return exactly the value it populated and no insert-if-absent operation (put, ensure, Accept, Promote) may replace an entry that exists when it publishes. Every point is non-trivial; distinct = matrix point", n13())
     }
     fn runs(&self, tier: Tier) -> u64 {
         match tier {
@@ -71,7 +71,13 @@ impl Check for C13 {
         if tape.draw(200) == 199 {
             return c13_concurrent(tape, ctx);
         }
-        let pt = point13(ctx.index % n13());
+        let mut pt = point13(ctx.index % n13());
+        // a quarter of the runs: a checker that is shown the copies and accepts
+        // whatever they hold (compatible but different values) -- lookups
+        // must still resolve to the first copy in registration order
+        if tape.draw(4) == 3 {
+            pt.checker = CheckerKind::Lenient;
+        }
         to_runout(run_point(tape, &pt, ctx.detail), &["c13"], ctx.detail)
     }
     fn assumptions(&self) -> Vec<String> {
@@ -151,7 +157,7 @@ impl Check for C14 {
         "C14"
     }
     fn rule(&self) -> String {
-        format!("the full matrix of {} points = stacks of 1-3 levels (write side optional, levels plain or sharded) x each level in {{absent, A, B}} x operation {{get, ensure, get_or_update x actions}} x populate in {{A, B, NotFound, Other error}} x checker {{none, byte equality (recording argument inodes), panicking}}; oracle: success iff all present copies (and the populated value when it is compared) are identical, checker errors and panics reach the caller, the recorded comparisons connect every present copy to the returned one, and with no checker later read-only levels are never opened; in a quarter of the runs the creation of the scratch file used for the populate comparison fails with ENOENT (directory vanished), which must surface as an error and not be taken for the populate function's NotFound; in a quarter of all matrix runs futimens fails with EPERM (reader does not own the files). Every point is non-trivial; distinct = matrix point", n14())
+        format!("the full matrix of {} points = stacks of 1-3 levels (write side optional, levels plain or sharded) x each level in {{absent, A, B}} x operation {{get, ensure, get_or_update x actions}} x populate in {{A, B, NotFound, Other error}} x checker {{none, byte equality (recording argument inodes), panicking, lenient (recording, accepts everything)}}; oracle: success iff all present copies (and the populated value when it is compared) are identical, checker errors and panics reach the caller, the recorded comparisons connect every present copy to the returned one, and with no checker later read-only levels are never opened; in a quarter of the runs the creation of the scratch file used for the populate comparison fails with ENOENT (directory vanished), which must surface as an error and not be taken for the populate function's NotFound; in a quarter of all matrix runs futimens fails with EPERM (reader does not own the files). Every point is non-trivial; distinct = matrix point", n14())
     }
     fn runs(&self, tier: Tier) -> u64 {
         match tier {
